@@ -196,7 +196,7 @@ PROPS = {
              "vs canonical proof of the union; GetProofSubset on random permuted subsets (hashes, targets, proof) and on an "
              "uncovered target (must err); GetMissingPositions vs the reference definition; MapPollard.GetMissingPositions vs "
              "'canonical positions not stored'; VerifyPartialProof with the true hashes (accept) and one flipped bit (reject)",
-        strength="P: the mirrors of AddProof, GetProofSubset and GetMissingPositions compute EXACTLY the reference values for all states <= 2^63 leaves and all duplicate-free requests in any order (C14_addproof_is_canonical_union, C14_subset_is_canonical, C14_subset_error_iff_uncovered, C14_missing_positions_exact); canonical proofs depend only on the leaf set; V: mirrors = code on every call; every helper's output = canonical proofs/positions of the reference; VerifyPartialProof with the missing hashes supplied succeeds",
+        strength="P: the mirrors of AddProof, GetProofSubset and GetMissingPositions compute EXACTLY the reference values for all states <= 2^63 leaves and all duplicate-free requests in any order (C14_addproof_is_canonical_union, C14_subset_is_canonical, C14_subset_error_iff_uncovered, C14_missing_positions_exact); C14_partial_proof_protocol_complete: MapPollard.GetMissingPositions mirror = the canonical proof positions not stored, and VerifyPartialProof given the true hashes at exactly those positions ACCEPTS (every consistent state, any live targets); canonical proofs depend only on the leaf set; V: mirrors = code on every call; every helper's output = canonical proofs/positions of the reference; VerifyPartialProof with the missing hashes supplied succeeds",
         level_text="Union and coverage are Coq theorems on the abstract level; the exact proofs/positions each helper must return are "
                    "computed by the extracted reference and compared with AddProof, GetProofSubset, GetMissingPositions and the map "
                    "forest's partial-proof API.",
